@@ -115,16 +115,18 @@ theorem step_request_nominates (h0 : T0 ≤ now) (hn : now ≤ H) (hg : Good T0 
   rcases request_nominates' a now l src m ha hnc (Or.inr hflt) hg.full hctl huc hnom hg.linv u1 u2 u3 with
     h | ⟨rc, q, mt, f1, f2, f3, _, f5, f6, f7⟩
   · exact Or.inl (k2.sel h)
-  · right
-    obtain ⟨l1, hl1, e1⟩ := k1.localByAddr hl
+  · obtain ⟨l1, hl1, e1⟩ := k1.localByAddr hl
     obtain ⟨l2, hl2, e2⟩ := k2.localByAddr hl1
     rw [hnet] at f1
     obtain ⟨rc2, hrc2, krc⟩ := k2.findRemote f1
     obtain ⟨q2, hq2, kq⟩ := k2.findPair he1 (e2.trans e1) krc.key f2
     rw [hla] at f5 f7
     rw [hnet] at f7
-    refine ⟨l2, rc2, q2, mt, hl2, hrc2, hq2, kq.nomOn f3, List.mem_append_left _ f5, f6, ?_⟩
-    exact k2.pend _ _ f7 (by simp [pendOf, maxBindingRequestTimeout]) (by simp)
+    rcases kq.nomOn f3 with hmark | hsel
+    · right
+      refine ⟨l2, rc2, q2, mt, hl2, hrc2, hq2, hmark, List.mem_append_left _ f5, f6, ?_⟩
+      exact k2.pend _ _ f7 (by simp [pendOf, maxBindingRequestTimeout]) (by simp)
+    · exact Or.inl (hsel g1.linv)
 
 /-- a matching success response on a `Good` agent validates the pair, and selects it for a nomination. -/
 theorem step_response_validates (h0 : T0 ≤ now) (hn : now ≤ H) (hg : Good T0 H a) {la src : Nat} {m : Msg}
